@@ -315,6 +315,22 @@ EXTRA4 = {
     'C17': "Round 8: deduplicate over text keys whose glued renderings collide (one injective relabelling of the model's tables per field).",
     'C18': "Round 8: the scheduler's queue shim implements mp.Queue.close() as CPython does (sentinel behind buffered items, both pipe ends closed, inherited at fork).",
 }
+EXTRA5 = {
+    'C01': "Round 9: step by step is also taken through results() (the materialised output a user gets); a source whose cells need the loader's cast and a filter that sees nulls.",
+    'C02': "Round 9: Typing.tla has dump_to_sql with an update flag (sql_flag: the flag is a declared field, fix 6b510fb) and join on row numbers in full-outer mode.",
+    'C03': "Round 9: a second file dumper of the other format later in the same flow.",
+    'C05': "Round 9: SubFlow.tla ObserverDrains - consumers that are LATER STEPS of the same chain and stop reading early (islice / break / return) behind every observer kind (fix 6430243).",
+    'C06': "Round 9: the early-stopping observation (nothing more is pulled once the consumer stopped) applies to pipelines without an observer; behind a dumper / stream / checkpoint the rest IS read - C05 demands it - and thrown away row by row.",
+    'C07': "Round 9: the default checkpoint_path (child process imports the library in one directory and runs in another: run / run / delete / run).",
+    'C08': "Round 9: the file-system recorder also intercepts copy-style publishing of the stream file (create / chunks / close are interruptible).",
+    'C09': "Round 9: multi-byte text in the descriptor itself; a hashed-path package re-dumped with edited rows into the same directory.",
+    'C11': "Round 9: every emitted row carries exactly the declared fields (extra rows of full-outer joins carry the target's own fields as nulls, fixes da27635 / 7c912c8).",
+    'C13': "Round 9: limit_rows versus the inference sample (the first text cell of an integer-looking column at line n, n+1, ...); the sniffed-dialect finding is also recognised when it ends in 'duplicate headers'.",
+    'C15': "Round 9: ProcFields.tla renames onto names the schema already has (swaps, cycles, shifts).",
+    'C16': "Round 9: sources() with named resources that collide with existing names / with the names it generates.",
+}
+for _k, _v in EXTRA5.items():
+    EXTRA4[_k] = (EXTRA4.get(_k, '') + ' ' + _v).strip()
 for _k, _v in EXTRA4.items():
     EXTRA3[_k] = (EXTRA3.get(_k, '') + ' ' + _v)
 for _k, _v in EXTRA3.items():
